@@ -247,7 +247,7 @@ def judgeCase (_k : Nat) (lines : List String) : Verdict := Id.run do
       -- both sides.
       let unreadable := (kind == "copyrange" || kind == "partcopy") && res.getD 1 "" == "Other:part_not_found"
       if unreadable then stats := addStats stats [("copy_source_unreadable", 1)]
-      let (s', mout) := if unreadable then (s, Out.err .internal) else step H false s mop
+      let (s', mout) := if unreadable then (s, Out.err .internal) else step H true s mop
       s := s'
       match mout with
       | .err e =>
